@@ -453,16 +453,22 @@ def dedupAdj : List Nat → List Nat
 
 def splitLimit : Nat := Consts.MAX_PACKET_SIZE - Consts.NODES_SPLIT_MARGIN
 
-/-- One iteration of the packing loop: `(packets, total_size)`. -/
-def splitStep (acc : List (List Rec) × Nat) (r : Rec) : List (List Rec) × Nat :=
-  if r.size + acc.2 < splitLimit then
-    (match acc.1.reverse with
-      | last :: front => (front.reverse ++ [last ++ [r]])
-      | [] => [[r]], acc.2 + r.size)
-  else (acc.1 ++ [[r]], r.size)
+/-- State of the packing loop: the finished packets, the packet being filled
+(`to_send_nodes[rpc_index]`) and `total_size`. -/
+structure SplitSt where
+  done : List (List Rec) := []
+  cur : List Rec := []
+  size : Nat := 0
+
+/-- One iteration of the packing loop. -/
+def splitStep (st : SplitSt) (r : Rec) : SplitSt :=
+  if r.size + st.size < splitLimit then { st with cur := st.cur ++ [r], size := st.size + r.size }
+  else { done := st.done ++ [st.cur], cur := [r], size := r.size }
 
 /-- `to_send_nodes`: starts with one empty packet. -/
-def splitPackets (recs : List Rec) : List (List Rec) := (recs.foldl splitStep ([[]], 0)).1
+def splitPackets (recs : List Rec) : List (List Rec) :=
+  let st := recs.foldl splitStep {}
+  st.done ++ [st.cur]
 
 /-- The records `send_nodes_response` collects: own record iff the smallest requested distance
 is 0, then `nodes_by_distances` without the requester. -/
